@@ -137,7 +137,24 @@ def flagsTok (s : String) : Option (Bool × Bool × Bool × Bool) :=
   | [some a, some b, some c, some d] => some (a, b, c, d)
   | _ => none
 
+/-- A configuration with a setting whose pretty function raises `exc` (stream `raising`; a rule stated here, outside the
+heap model and its theorems): the rendered views (`settings`, `settings_by_index`, `settings_map(pretty=True)`) and
+everything constructed from them (decoders, client set-up, profile generation) raise that exception on EVERY use, the
+raw views are mappings as ever.  One token per op: `M` (a mapping) or `E:<exc>`. -/
+def raisingRule (exc : String) (op : String) : Option String :=
+  match op.splitOn ":" with
+  | ["va", i] => if i == "0" || i == "1" then some ("E:" ++ exc) else if i == "2" || i == "3" then some "M" else none
+  | ["sm", _, p, _] => if p == "T" then some ("E:" ++ exc) else if p == "F" then some "M" else none
+  | ["c2", k] => if k == "0" || k == "1" then some ("E:" ++ exc) else none
+  | ["pf"] => some ("E:" ++ exc)
+  | ["cl", "T"] => some ("E:" ++ exc)
+  | _ => none
+
 def step' : List String → String
+  | "rais" :: exc :: _ :: _cfg :: _n :: ops =>
+    match ops.mapM (raisingRule exc) with
+    | some outs => " ".intercalate (outs ++ ["O:ok"])
+    | none => "bad-op"
   | "hist" :: cp :: fl :: _cfg :: n :: rest =>
     match boolTok cp, flagsTok fl, n.toNat? with
     | some cp, some (a, b, c, d), some n =>
